@@ -269,7 +269,11 @@ def validate_trace(workdir, trace_module, trace_file_name, lines, constants="", 
     (bad_entries, nlines, TlcResult). bad entries are what the spec appended to `bad` (JSON)."""
     if os.environ.get("VERIF_SELFTEST"):
         import selftest
-        lines, _ = selftest.apply(os.environ["VERIF_SELFTEST"], trace_module, lines)
+        norig = len(lines)
+        lines, _dropped = selftest.apply(os.environ["VERIF_SELFTEST"], trace_module, lines)
+        _keep = [i for i in range(norig) if i not in set(_dropped)] if _dropped else None
+    else:
+        _keep = None
     sub = tempfile.mkdtemp(prefix="tv-", dir=workdir)
     if family:
         copy_specs(family, sub, also)
@@ -287,6 +291,9 @@ def validate_trace(workdir, trace_module, trace_file_name, lines, constants="", 
     if n != len(lines):
         raise Inconclusive("trace validation read %d of %d lines" % (n, len(lines)))
     shutil.rmtree(sub, ignore_errors=True)
+    if _keep is not None:
+        # self-test only: lines were removed from the recording; report positions in the caller's numbering
+        bad = [(_keep[x - 1] + 1) if isinstance(x, int) else [_keep[x[0] - 1] + 1] + list(x[1:]) for x in bad]
     return bad, n, r
 
 
